@@ -205,8 +205,15 @@ def gen_replies(rng, ce, taken=()):
             else:
                 args.append({"name": "result", "ty": P("SubMsgResult")})
                 role = "result"
-            # the merged methods of one entry must agree on the payload *types*; names may differ
-            args += [dict(a, name=a["name"] + ("" if k == 0 else "b")) for a in payload]
+            # the merged methods of one entry must agree on the payload *types*; names may differ.
+            # Sometimes the payload parameters carry the names the generated dispatcher uses for its own locals (shadowing)
+            first = args[0]["name"] if args else None
+            if rng.random() < 0.3:
+                pool = [n for n in ["gas_used", "events", "msg_responses", "data", "error", "result", "payload", "deps", "env", "sub_msg_resp"] if n != first]
+                rng.shuffle(pool)
+                args += [dict(a, name=pool[i]) for i, a in enumerate(payload)]
+            else:
+                args += [dict(a, name=a["name"] + ("" if k == 0 else "b")) for a in payload]
             msg = {"kind": "reply", "reply_on": on_word, "handlers": [] if fn == h else [h]}
             # dispatch_reply returns the handler's result as is: reply handlers must return the contract's own error type
             methods.append({"name": fn, "msg": msg, "args": args, "ret_kind": "resp", "ret_err": "ce" if ce else "std",
